@@ -336,6 +336,53 @@ def prop_doc(case):
     return {"nt": case.get("nt", False), "want": want, "entry": case["entry"]}
 
 
+def prop_neutral(case):
+    """A document without any version-specific line (header tags, comments): the version the Gfa reports is the
+    same through every entry point and for every order, and so is what a later version-specific line makes of it."""
+    lines, vlevel = case["lines"], case["vlevel"]
+    seen = {}
+    for entry in ("list", "str", "file", "add_line"):
+        try:
+            if entry == "list":
+                g = gfapy.Gfa(list(lines), vlevel=vlevel)
+            elif entry == "str":
+                g = gfapy.Gfa("\n".join(lines), vlevel=vlevel)
+            elif entry == "file":
+                d = tempfile.mkdtemp(prefix="vfc13")
+                try:
+                    p_ = os.path.join(d, "x.gfa")
+                    with open(p_, "w") as f:
+                        f.write("\n".join(lines) + "\n")
+                    g = gfapy.Gfa.from_file(p_, vlevel=vlevel)
+                finally:
+                    shutil.rmtree(d, ignore_errors=True)
+            else:
+                g = gfapy.Gfa(vlevel=vlevel)
+                for l in lines:
+                    g.add_line(l)
+                g.process_line_queue()
+            out = ("ok", g.version, len(g.lines))
+        except GfapyError as e:
+            out = (type(e).__name__,)
+        except Exception as e:
+            raise Violation("foreign", "neutral document through %s raised %s: %s\n%s" % (entry, type(e).__name__, str(e)[:200], "\n".join(lines)), type(e).__name__)
+        seen.setdefault(out, []).append(entry)
+    if len(seen) > 1:
+        raise Violation("entry-dependent", "a document without version-specific lines gives, depending on the entry point: %s\n%s" % (
+            sorted(seen.items(), key=str), "\n".join(lines)), "neutral")
+    return {"nt": len(lines) >= 1, "neutral": sorted(seen, key=str)[0][1] if sorted(seen, key=str)[0][0] == "ok" else "refused"}
+
+
+@st.composite
+def st_neutral(draw):
+    r = draw(st.randoms(use_true_random=False))
+    pool = ["# a comment", "#", "H\txx:i:1", "H\tab:Z:text", "H\txx:i:1\tzz:f:0.5", "# another", "H\tco:Z:x"]
+    lines = [gen.choice(r, pool) for _ in range(r.randint(0, 4))]
+    if sum(1 for l in lines if "xx:i:1" in l) > 1:
+        lines = [l for i, l in enumerate(lines) if "xx:i:1" not in l or i == [j for j, x in enumerate(lines) if "xx:i:1" in x][0]]
+    return {"lines": lines, "vlevel": gen.choice(r, [0, 1, 2, 3])}
+
+
 INJECT = {"gfa1": ["E\t*\tA+\tB-\t0\t1\t0\t1\t*", "S\tzz\t10\t*", "G\t*\tA+\tB-\t5\t*", "O\too\tA+", "U\tuu\tA", "F\tA\tr+\t0\t1\t0\t1\t*",
                    "X\tcustom", "H\tVN:Z:2.0"],
           "gfa2": ["L\tA\t+\tB\t-\t*", "S\tzz\t*", "C\tA\t+\tB\t-\t0\t*", "P\tpp\tA+\t*", "H\tVN:Z:1.0"]}
@@ -379,4 +426,6 @@ def parts(tier):
                  note="all sequences of line kinds up to the length bound x version parameter x vlevel"),
             Part("vn-other", prop_vn, enum=enum_vn, exhaustive=True, quick_shards=2,
                  note="a VN header other than 1.0/2.0 with up to two further lines: every order and both entry points give the same outcome"),
+            Part("neutral", prop_neutral, strategy=st_neutral(), n=60 if q else 400,
+                 note="documents of header tags and comments only: same version through Gfa(list), Gfa(str), from_file and add_line"),
             Part("docs", prop_doc, strategy=st_doc(), n=600 if q else 4000, quick_shards=2)]
